@@ -1,13 +1,18 @@
 //! Per-property drivers.
 use crate::core::Driver;
 
+pub mod c01;
+pub mod c02;
 pub mod c15;
+pub mod gdsgen;
 pub mod toy;
 
-pub const ALL: &[&str] = &["C15", "TOY"];
+pub const ALL: &[&str] = &["C01", "C02", "C15", "TOY"];
 
 pub fn registry(id: &str) -> Box<dyn Driver> {
     match id {
+        "C01" => c01::driver(),
+        "C02" => c02::driver(),
         "C15" => c15::driver(),
         "TOY" => toy::driver(),
         _ => panic!("MACHINERY: unknown property id {id}"),
